@@ -7,6 +7,7 @@
 // deterministic signature value.
 #include "common/vf.hpp"
 #include <openssl/ec.h>
+#include <openssl/err.h>
 #include <openssl/ecdsa.h>
 #include <openssl/bn.h>
 #include <openssl/evp.h>
@@ -226,9 +227,49 @@ static void k_invalid(Tape &t)
 	PT P(c);
 	EC_POINT_mul(c.grp, P.p, a.b, nullptr, nullptr, bnctx);
 	Bytes pb = point_bytes(c, P.p), bad = pb;
-	unsigned mut = t.u8() % 10;
+	unsigned mut = t.u8() % 13;
 	std::string what;
 	switch (mut) {
+	case 10: case 11: {
+		// a coordinate that is not reduced modulo p but still fits the field length: needs a point with a small
+		// abscissa (below 2^(8*flen) - p, i.e. 2^224 on P-256 and 2^128 on P-384; any point will do on P-521).
+		// Found by trying successive small x until x^3 - 3x + b is a square.
+		BN x, lim;
+		BN_one(lim.b); BN_lshift(lim.b, lim.b, (int)(8 * c.flen)); BN_sub(lim.b, lim.b, c.p);     // strictly below this
+		Bytes seedb = t.filled(8);
+		BN_bin2bn(seedb.data(), 8, x.b);
+		if (mut == 11) { BN_copy(x.b, lim.b); BN_sub_word(x.b, 1 + seedb[0]); }                      // just under the largest x with x + p representable
+		PT S(c);
+		bool found = false;
+		for (int i = 0; i < 200 && !found; i++) {
+			if (mut == 11) BN_sub_word(x.b, 1); else BN_add_word(x.b, 1);
+			ERR_clear_error();
+			if (EC_POINT_set_compressed_coordinates(c.grp, S.p, x.b, seedb[1] & 1, bnctx) == 1) found = true;
+		}
+		ERR_clear_error();
+		if (!found) failf("harness: no point with a small abscissa found");
+		pb = point_bytes(c, S.p); bad = pb;
+		BN xx; BN_bin2bn(pb.data() + 1, (int)c.flen, xx.b); BN_add(xx.b, xx.b, c.p);
+		if ((size_t)BN_num_bytes(xx.b) > c.flen) failf("harness: x + p does not fit");
+		Bytes xb = bn2b(xx.b, c.flen);
+		memcpy(bad.data() + 1, xb.data(), c.flen);
+		what = fmt("x + p for a point with a %d-bit abscissa (coordinate not reduced, same point modulo p)", BN_num_bits(x.b));
+		break;
+	}
+	case 12: {
+		// the same for the ordinate: on P-256 the point with y = 1; on P-521 any point; P-384: y = p (zero), plain invalid
+		static const uint8_t P256_Y1_X[32] = { 0x8d, 0x01, 0x77, 0xeb, 0xab, 0x9c, 0x6e, 0x9e, 0x10, 0xdb, 0x6d, 0xd0, 0x95, 0xdb, 0xac, 0x0d, 0x63, 0x75, 0xe8, 0xa9, 0x7b, 0x70, 0xf6, 0x11, 0x87, 0x5d, 0x87, 0x7f, 0x00, 0x69, 0xd2, 0xc7 };
+		if (c.id == BR_EC_secp256r1) {
+			pb.assign(65, 0); pb[0] = 4; memcpy(pb.data() + 1, P256_Y1_X, 32); pb[64] = 1;
+			PT S(c);
+			if (EC_POINT_oct2point(c.grp, S.p, pb.data(), pb.size(), bnctx) != 1) failf("harness: (x, 1) is not on P-256");
+		}
+		bad = pb;
+		BN yy; BN_bin2bn(pb.data() + 1 + c.flen, (int)c.flen, yy.b); BN_add(yy.b, yy.b, c.p);
+		if ((size_t)BN_num_bytes(yy.b) > c.flen) { Bytes pbn = bn2b(c.p, c.flen); memcpy(bad.data() + 1 + c.flen, pbn.data(), c.flen); what = "y = p"; }
+		else { Bytes yb = bn2b(yy.b, c.flen); memcpy(bad.data() + 1 + c.flen, yb.data(), c.flen); what = "y + p (coordinate not reduced, same point modulo p)"; }
+		break;
+	}
 	case 0: bad[0] = t.pick<uint8_t>({ 0x00, 0x02, 0x03, 0x05, 0x06, 0x07, 0xFF }); what = fmt("prefix byte %02x", bad[0]); break;
 	case 1: bad.pop_back(); what = "one byte short"; break;
 	case 2: bad.push_back(0); what = "one byte long"; break;
